@@ -9,6 +9,10 @@ from hypothesis import strategies as st
 from vlib.ops import LINEAR, TREE_COMPATIBLE
 
 EXACT_METRICS = ["cityblock", "chebyshev", "sqeuclidean", "euclidean"]
+# for differential checks that need no exact distance oracle: metrics with data-dependent parameters (seuclidean,
+# mahalanobis estimate a variance / covariance from the rows they are given), ratios and boolean metrics included
+MANY_METRICS = EXACT_METRICS + ["seuclidean", "mahalanobis", "cosine", "correlation", "canberra", "braycurtis",
+                                "minkowski", "hamming", "seuclidean", "mahalanobis"]
 
 INT_POOL = [1, 2, 3, 0, -1, 7, 10, 4]
 STR_POOL = ["a", "b", "ab", "abc", "A", "1", "arm 2", "b ", "z"]
@@ -137,20 +141,20 @@ def lp_st(draw, names, arms=None, deterministic=False, lam_min=0.01, with_binari
 
 
 @st.composite
-def np_st(draw, names, arms, prob_ok=True, defaults_ok=False):
+def np_st(draw, names, arms, prob_ok=True, defaults_ok=False, metrics=None):
     name = draw(st.sampled_from(list(names)))
     if name is None:
         return None
     if name == "Radius":
         p = {"radius": draw(st.sampled_from([1, 2, 1.5, 3, 0.5, 4, 2.0, 9])),
-             "metric": draw(st.sampled_from(EXACT_METRICS))}
+             "metric": draw(st.sampled_from(metrics or EXACT_METRICS))}
         if prob_ok and draw(st.integers(0, 3)) == 0:
             p["no_nhood_prob_of_arm"] = draw(prob_list_st(len(arms)))
         if defaults_ok and draw(st.integers(0, 4)) == 0:
             p = {}
         return [name, p]
     if name == "KNearest":
-        p = {"k": draw(st.integers(1, 4)), "metric": draw(st.sampled_from(EXACT_METRICS))}
+        p = {"k": draw(st.integers(1, 4)), "metric": draw(st.sampled_from(metrics or EXACT_METRICS))}
         if defaults_ok and draw(st.integers(0, 4)) == 0:
             p = {}
         return [name, p]
@@ -193,12 +197,12 @@ ALL_NP = [None, "Radius", "KNearest", "LSHNearest", "Clusters", "TreeBandit"]
 @st.composite
 def config_st(draw, lps=ALL_LP, nps=ALL_NP, arm_kinds=("int", "str", "float"), min_arms=1, max_arms=4,
               deterministic=False, with_binarizer=False, scale_ok=False, prob_ok=True, defaults_ok=False,
-              n_jobs_choices=(1,), seeds=None, lam_min=0.01, tree_parallel_ok=False):
+              n_jobs_choices=(1,), seeds=None, lam_min=0.01, tree_parallel_ok=False, metrics=None):
     kind, arms = draw(arms_st(arm_kinds, min_arms, max_arms))
     npn = draw(st.sampled_from(list(nps)))
     lp_names = [n for n in lps if not (npn == "TreeBandit" and n not in TREE_COMPATIBLE)]
     lp = draw(lp_st(lp_names, arms, deterministic, lam_min, with_binarizer, scale_ok))
-    npd = draw(np_st([npn], arms, prob_ok, defaults_ok)) if npn is not None else None
+    npd = draw(np_st([npn], arms, prob_ok, defaults_ok, metrics)) if npn is not None else None
     seed = draw(seeds if seeds is not None else st.integers(0, 2 ** 20))
     nj = draw(st.sampled_from(list(n_jobs_choices)))
     if npn == "TreeBandit" and (lp[0] == "ThompsonSampling" or lp[1].get("epsilon", 0) > 0) and not tree_parallel_ok:
@@ -410,9 +414,16 @@ def step_any(h, kinds, binarizer_on_add=False):
     if not ok:
         ok = ["fit"]
     k = draw(st.sampled_from(ok))
-    if k == "add_arm" and binarizer_on_add and h.lp[0] == "ThompsonSampling" \
-            and h.lp[1].get("binarizer") is not None and draw(st.booleans()):
-        return h.add_arm(draw(binarizer_st(h.arms)))
+    if k == "add_arm" and binarizer_on_add and h.lp[0] == "ThompsonSampling" and draw(st.booleans()):
+        had = h.lp[1].get("binarizer") is not None or getattr(h, "binarizer_installed", False)
+        if had or draw(st.booleans()):
+            # a Thompson bandit constructed without a binarizer may get its first one from add_arm: from then on
+            # non-binary rewards are valid input
+            op = h.add_arm(draw(binarizer_st(h.arms)))
+            if not had:
+                h.binarizer_installed = True
+                h.family = draw(st.sampled_from(["Sint", "S"]))
+            return op
     return getattr(h, k)()
 
 
